@@ -352,6 +352,8 @@ def run_shard(shard):
                     res.sample(case)
     elif kind == "offset":
         universe = u_loc(L, (1, -1)) + _multi_exon(L)
+        if L <= 8:
+            universe = universe + _abutting_exons(L) + ring_multi_exon(L, 1) + ring_multi_exon(L, -1)
         for a in universe:
             was_bridging = len(a.parts) > 1 and location_bridges_origin(a)
             for k in range(-2 * L, 2 * L + 1):
@@ -469,6 +471,25 @@ def ring_multi_exon(L, strand):
                 loc = C(parts)
                 out[enc(loc)] = loc
     return list(out.values())
+
+
+def _abutting_exons(L):
+    """2-4 exons of which consecutive ones may touch (no intron between them, as in programmed frameshifts) - after a shift
+    they can abut the halves of an exon cut by the origin, so that three or more consecutive parts touch"""
+    out = []
+    for strand in (1, -1):
+        for n_exons in (2, 3, 4):
+            for cuts in itertools.combinations(range(L + 1), n_exons + 1):
+                # exons [c0,c1) [c1,c2) ... all touching; and variants with one intron of length 1 after the first exon
+                touching = [F(a, b, strand) for a, b in zip(cuts, cuts[1:])]
+                variants = [touching]
+                if cuts[1] + 1 < cuts[2]:
+                    variants.append([F(cuts[0], cuts[1], strand), F(cuts[1] + 1, cuts[2], strand)] + touching[2:])
+                for parts in variants:
+                    if strand == -1:
+                        parts = parts[::-1]
+                    out.append(C(parts))
+    return out
 
 
 def _redundant_exons(L):
